@@ -2,6 +2,7 @@ package main
 
 func controlsC01() []Control {
 	return []Control{
+		{Name: "re-buy credited, then refused for its size", Expect: "R8", Mutate: replaceIn("(*tableEngine).PlayerReserve", "\t\tplayerState.Bankroll += joinPlayer.RedeemChips\n", "\t\tplayerState.Bankroll += joinPlayer.RedeemChips\n\t\tif joinPlayer.RedeemChips > 1000000 {\n\t\t\treturn ErrTablePlayerInvalidAction\n\t\t}\n", 0)},
 		{Name: "add-on overwrites instead of adding", Expect: "R1", Mutate: replaceIn("(*tableEngine).PlayerRedeemChips", "playerState.Bankroll += joinPlayer.RedeemChips", "playerState.Bankroll = joinPlayer.RedeemChips", 0)},
 		{Name: "settlement writes the absolute Final while top-ups are unguarded", Expect: "R3", Mutate: replaceIn("(*tableEngine).settleGame", "playerState.Bankroll += player.Changed", "playerState.Bankroll = player.Final", 0)},
 		{Name: "settlement indexes by loop counter instead of the result's Idx", Expect: "R2", Mutate: replaceIn("(*tableEngine).settleGame", "for _, player := range te.table.State.GameState.Result.Players {\n\t\tplayerIdx := te.table.State.GamePlayerIndexes[player.Idx]", "for ri, player := range te.table.State.GameState.Result.Players {\n\t\tplayerIdx := te.table.State.GamePlayerIndexes[ri]", 0)},
